@@ -2,6 +2,7 @@ package main
 
 import (
 	"fmt"
+	"os"
 	"sort"
 	"strings"
 
@@ -67,6 +68,22 @@ func c05Run(c *core.Ctx) *core.Result {
 	g, eo := histGenOpt(c.R)
 	synthetic := c.R.P(1, 3)
 	ho := histOpt{Rounds: c.R.Range(1, 3), DiffNoneP: 8, Targeted: true, Synthetic: synthetic, SlowFiles: synthetic, Unchanged: c.R.P(1, 4), GenOpt: g, EditOpt: eo}
+	if c.R.P(1, 3) {
+		// a receiver-side filter that rewrites metadata: the entry is stored
+		// with the rewritten values, the digest is still seeded with the stat
+		// as sent
+		ho.Filter = func(p string, st *types.Stat) bool {
+			if st.Uid == 1234 {
+				st.Uid = 4242
+			}
+			st.Gid = st.Gid/2 + 7
+			if os.FileMode(st.Mode)&os.ModeSymlink == 0 {
+				st.Mode &^= 0o002 // (a symlink's mode cannot be changed)
+			}
+			return true
+		}
+		r.Count("histories_with_rewriting_filter", 1)
+	}
 	var obs []roundObs
 	if c.R.P(1, 3) {
 		// targeted: start from a tree with adjacent directories, delete several of them / chmod dirs
@@ -112,8 +129,9 @@ func c05Run(c *core.Ctx) *core.Result {
 
 func c05CheckRound(r *core.Result, round int, o *roundObs) {
 	r.Count("rounds", 1)
-	E, either := changedSet(o.Old, o.Src)
+	E, either := changedSet(o.Old, o.SrcF)
 	sent := map[string]*types.Stat{}
+	filtered := o.SrcF.Index()
 	for _, st := range o.Stats {
 		sent[st.Path] = st
 	}
@@ -126,7 +144,7 @@ func c05CheckRound(r *core.Result, round int, o *roundObs) {
 		for _, n := range o.Notes {
 			ns = append(ns, n.Kind+" "+n.Path)
 		}
-		return map[string]any{"edits": o.Edits, "notifications": ns, "old": o.Old.Lines(), "src": o.Src.Lines()}
+		return map[string]any{"edits": o.Edits, "notifications": ns, "old": o.Old.Lines(), "src": o.SrcF.Lines()}
 	}
 
 	// --- model application
@@ -178,6 +196,11 @@ func c05CheckRound(r *core.Result, round int, o *roundObs) {
 				r.ViolateD("notify-stat", ctx(), "round %d: %s %q carries stat %v, the sender announced %v", round, n.Kind, n.Path, n.Stat, st)
 			}
 			ne := tree.FromStat(st)
+			if j, ok := filtered[n.Path]; ok {
+				// what is stored is the stat as rewritten by the receiver's filter
+				fe := o.SrcF.Entries[j]
+				ne.Perm, ne.UID, ne.GID = fe.Perm, fe.UID, fe.GID
+			}
 			if ne.Type != tree.Dir {
 				removeBelow(n.Path, false)
 			}
@@ -255,7 +278,7 @@ func c05CheckRound(r *core.Result, round int, o *roundObs) {
 
 	// --- every changed path exactly once, unchanged paths never
 	untouched := 0
-	for _, e := range o.Src.Entries {
+	for _, e := range o.SrcF.Entries {
 		n := upserts[e.Path]
 		switch {
 		case E[e.Path] && either[e.Path]:
